@@ -228,7 +228,19 @@ class Rejector(Client):
     def e_add(self, cid, c):
         r, w = self.rng, self.w
         nu = n_user(c)
-        k = r.choice(["noncircuit", "mode", "oversize", "oversize", "self"])
+        k = r.choice(["noncircuit", "mode", "oversize", "oversize", "self",
+                      "name"])
+        if k == "name":
+            subs = self.any_circuits(
+                lambda s, sc: s != cid and not w.meta["c"][s].get("opaque")
+                and 1 <= sc.input_modes <= nu)
+            hs = [s for s in subs if w.pool["c"][s].heralds["input"]]
+            if not subs:
+                return None
+            sid = self.pick(hs) if hs and r.random() < 0.7 else self.pick(subs)
+            return {"op": "add", "parent": cid, "sub": sid,
+                    "mode": r.randint(0, nu - w.pool["c"][sid].input_modes),
+                    "group": r.random() < 0.7, "name": r.choice([5, None, 2.5])}
         if k == "noncircuit":
             return {"op": "add_noncircuit", "parent": cid,
                     "value": r.choice([3, "x", None])}
